@@ -244,41 +244,61 @@ fn overflow_behaviour(rep: &mut Report) {
     case!(usize, "usize");
     // a merge that hits the documented overflow panic: afterwards the sketch must still satisfy the
     // bounds for the stream it has really received (a half-merged table breaks "at most the total")
-    for d in [1usize, 2, 3] {
-        for w in [1usize, 2, 4] {
-            rep.evaluations += 1;
-            let res = guarded(|| -> Option<(String, String)> {
-                let bh = CtlBuildHasher::mix(31 + d as u64);
-                let mut c: CountMinSketch<u64, u8, CtlBuildHasher> = CountMinSketch::with_params_and_hasher(w, d, bh);
-                let mut o: CountMinSketch<u64, u8, CtlBuildHasher> = CountMinSketch::with_params_and_hasher(w, d, bh);
-                let mut own: std::collections::BTreeMap<u64, u128> = std::collections::BTreeMap::new();
-                let mut total: u128 = 0;
-                for k in 0..6u64 {
-                    let n = 5 + (k as u8) * 3;
-                    c.add_n(&k, &n);
-                    *own.entry(k).or_insert(0) += n as u128;
-                    total += n as u128;
-                    o.add_n(&k, &40);
+    {
+        let mut r = FastRng::new(0xC02_C02);
+        for (w, d) in [(2usize, 1usize), (3, 1), (2, 2), (4, 2), (3, 3), (5, 1)] {
+            for trial in 0..300u64 {
+                rep.evaluations += 1;
+                let bh = CtlBuildHasher::mix(31 + trial);
+                // self: some cells nearly empty, some moderately filled; other: a few heavy keys. A
+                // half-merged table then shows a nearly empty cell of self that jumped far above the
+                // total weight self has received.
+                let sw: Vec<u8> = (0..6).map(|_| if r.chance(0.5) { r.below(4) as u8 } else { 30 + r.below(40) as u8 }).collect();
+                let ow: Vec<u8> = (0..6).map(|_| if r.chance(0.4) { 200 + r.below(56) as u8 } else { r.below(3) as u8 }).collect();
+                if sw.iter().map(|x| *x as u32).sum::<u32>() > 255 {
+                    continue; // self alone must be a legal sketch for any key placement
                 }
-                // o holds 240 in total: cells overflow during the merge
-                if guarded(|| c.merge(&o)).is_ok() {
-                    return None; // fitted (no overflow for this shape)
-                }
-                for (k, t) in &own {
-                    let q = c.query_point(k) as u128;
-                    if q < *t {
-                        return Some(("C02/underestimate/after-panicking-merge".into(), format!("after a merge that panicked on counter overflow query_point({}) = {} < {} added before", k, q, t)));
+                let res = guarded(|| -> Option<(String, String)> {
+                    let mut c: CountMinSketch<u64, u8, CtlBuildHasher> = CountMinSketch::with_params_and_hasher(w, d, bh);
+                    let mut o: CountMinSketch<u64, u8, CtlBuildHasher> = CountMinSketch::with_params_and_hasher(w, d, bh);
+                    let mut total: u128 = 0;
+                    for k in 0..6u64 {
+                        c.add_n(&k, &sw[k as usize]);
+                        total += sw[k as usize] as u128;
                     }
-                    if q > total {
-                        return Some(("C02/exceeds-total/after-panicking-merge".into(), format!("after a merge that panicked on counter overflow query_point({}) = {} exceeds the total weight {} the sketch has received (half-merged table)", k, q, total)));
+                    // `other` alone must be legal too (its own cells may not overflow)
+                    if guarded(|| {
+                        for k in 0..6u64 {
+                            o.add_n(&k, &ow[k as usize]);
+                        }
+                    })
+                    .is_err()
+                    {
+                        return None;
                     }
+                    if guarded(|| c.merge(&o)).is_ok() {
+                        return None; // fitted
+                    }
+                    for k in 0..6u64 {
+                        let q = c.query_point(&k) as u128;
+                        let t = sw[k as usize] as u128;
+                        if q < t {
+                            return Some(("C02/underestimate/after-panicking-merge".into(), format!("after a merge that panicked on counter overflow query_point({}) = {} < {} added before", k, q, t)));
+                        }
+                        if q > total {
+                            return Some(("C02/exceeds-total/after-panicking-merge".into(), format!("after a merge that panicked on counter overflow query_point({}) = {} exceeds the total weight {} the sketch has received (half-merged table)", k, q, total)));
+                        }
+                    }
+                    None
+                });
+                match res {
+                    Ok(None) => rep.count("panicking_merge_cases", 1),
+                    Ok(Some((sig, what))) => {
+                        rep.violation(sig, format!("cms<u8>(w={},d={}): {}", w, d, what), json!({"w": w, "d": d, "self_weights": sw, "other_weights": ow, "hasher": bh}));
+                        break;
+                    }
+                    Err(msg) => rep.violation(format!("C02/panic/{}", panic_class(&msg)), msg, json!({"w": w, "d": d})),
                 }
-                None
-            });
-            match res {
-                Ok(None) => rep.count("panicking_merge_cases", 1),
-                Ok(Some((sig, what))) => rep.violation(sig, format!("cms<u8>(w={},d={}): {}", w, d, what), json!({"w": w, "d": d})),
-                Err(msg) => rep.violation(format!("C02/panic/{}", panic_class(&msg)), msg, json!({"w": w, "d": d})),
             }
         }
     }
